@@ -125,8 +125,9 @@ theorem batch_ok (sh : Sh p) {w : World p} (hc : Clean w) (b : Batch p) : allOk 
 
 theorem batch_ops_snoc (b : Batch p) : ∃ pre, b.ops = pre ++ [.update] := by
   cases b with
-  | partialSync dirty acqs => exact ⟨_, by simp [Batch.ops]⟩
-  | fullSync acqs => exact ⟨_, by simp [Batch.ops]⟩
+  | partialSync dirty acqs =>
+    exact ⟨.removeAll dirty :: acqs.map fun a => .acquire a.1 a.2, by simp [Batch.ops]⟩
+  | fullSync acqs => exact ⟨.clear :: acqs.map fun a => .acquire a.1 a.2, by simp [Batch.ops]⟩
 
 theorem batches_inv (sh : Sh p) (wf : sh.WF) (bs : List (Batch p)) : ∀ {w : World p},
     Inv sh w → Clean w → Good sh w →
@@ -156,5 +157,192 @@ theorem disk_eq_items_resyncs (sh : Sh p) (wf : sh.WF) (bs : List (Batch p)) :
     ∀ k x, (run sh {} (bs.flatMap Batch.ops)).disk k x =
       if sh.shardOf x = k then (run sh {} (bs.flatMap Batch.ops)).store.items x else none :=
   (batches_inv sh wf bs (inv_init sh) ⟨fun _ => ⟨rfl, rfl⟩, fun _ => rfl⟩ (by intro k x; simp [itemsIn, emp])).2.2
+
+
+/-! ### non-vacuity and witnesses -/
+
+/-- three shards, two names: name 0 lives in shard 2, name 1 in shard 0 -/
+def sh3 : Sh 2 := { n := 3, shardOf := fun x => if x.val = 0 then 2 else 0 }
+/-- sharding disabled: single file -/
+def sh0 : Sh 2 := { n := 0, shardOf := fun _ => 0 }
+def c1 : Content := ⟨1, 0⟩
+def c2 : Content := ⟨2, 0⟩
+
+theorem sh3_wf : sh3.WF := by intro x; simp only [sh3]; by_cases h : x.val = 0 <;> simp [h]
+theorem sh0_wf : sh0.WF := by intro x; simp [sh0]
+
+/-- non-vacuity of `disk_eq_items`: a disciplined history with a full resync that empties shard 2
+and changes the backend of shard 0; the files do change (shard 2 loses its backend) -/
+example :
+    let hist : List (Op 2) := [.acquire 0 c1, .acquire 1 c1, .update, .clear, .acquire 1 c2]
+    allOk sh3 {} (hist ++ [.update]) = true ∧
+    (run sh3 {} [.acquire 0 c1, .acquire 1 c1, .update]).disk 2 0 = some c1 ∧
+    (run sh3 {} (hist ++ [.update])).disk 2 0 = none ∧
+    (run sh3 {} (hist ++ [.update])).disk 0 1 = some c2 := by decide
+
+/-- non-vacuity: a change reverted within one batch (`Shrink` drops the pair and recomputes
+`changedShards` to empty), the file keeps the DELETED object (more slots), and so does `items` -/
+example :
+    let hist : List (Op 2) := [.acquire 0 ⟨1, 2⟩, .update, .removeAll [0], .acquire 0 ⟨1, 1⟩]
+    allOk sh3 {} (hist ++ [.update]) = true ∧
+    (shrink sh3 (run sh3 {} hist).store).changed 2 = false ∧
+    (run sh3 {} (hist ++ [.update])).store.items 0 = some ⟨1, 2⟩ ∧
+    (run sh3 {} (hist ++ [.update])).disk 2 0 = some ⟨1, 2⟩ := by decide
+
+/-- non-vacuity with sharding disabled (single file 0) -/
+example :
+    let hist : List (Op 2) := [.acquire 0 c1, .acquire 1 c1, .update, .clear, .acquire 1 c2]
+    allOk sh0 {} (hist ++ [.update]) = true ∧ (run sh0 {} (hist ++ [.update])).disk 0 0 = none ∧
+    (run sh0 {} (hist ++ [.update])).disk 0 1 = some c2 := by decide
+
+/-- historical witness (repaired by the `fix:` commit on `Backends.Clear`): with the old `Clear`
+the disciplined history `Acquire; update; Clear; update` (a full resync that empties a shard)
+leaves the removed backend in the file of shard 2 -/
+theorem clearOld_stale :
+    let hist : List (Op 2) := [.acquire 0 c1, .update, .clear, .update]
+    allOk sh3 {} hist = true ∧
+    (runOld sh3 {} hist).store.items 0 = none ∧ (runOld sh3 {} hist).disk 2 0 = some c1 ∧
+    (run sh3 {} hist).disk 2 0 = none := by decide
+
+/-- the 5-call replay of the design round on the old code: `ChangedShards() = []` with one name in
+`ItemsDel` -/
+theorem clearOld_changedShards_empty :
+    let s := shrink sh3 (clearOld sh3 (commit (acquire sh3 {} 0 c1)))
+    s.del 0 = some c1 ∧ (∀ k, k < 3 → s.changed k = false) ∧
+    (shrink sh3 (clear sh3 (commit (acquire sh3 {} 0 c1)))).changed 2 = true := by decide
+
+/-- outside the discipline (documented, not reachable through `converters.Sync`): `RemoveAll` of a
+name acquired in the same batch — `Shrink` sees an identical add/del pair and puts the removed
+backend back into `items`, with no shard flagged -/
+theorem undisciplined_add_then_remove :
+    let ops : List (Op 2) := [.acquire 0 c1, .removeAll [0], .update]
+    allOk sh3 {} ops = false ∧ (run sh3 {} ops).store.items 0 = some c1 ∧ (run sh3 {} ops).disk 2 0 = none := by
+  decide
+
+/-- outside the discipline: `Clear` in the middle of a batch replaces `itemsDel` and
+`changedShards`, so a backend removed earlier in the batch stays in its file -/
+theorem undisciplined_remove_then_clear :
+    let ops : List (Op 2) := [.acquire 0 c1, .update, .removeAll [0], .clear, .update]
+    allOk sh3 {} ops = false ∧ (run sh3 {} ops).store.items 0 = none ∧ (run sh3 {} ops).disk 2 0 = some c1 := by
+  decide
+
+/-- outside the discipline: a `Commit` that is not preceded by the file write (`HAProxyUpdate`
+commits on every path; the no-rewrite paths are the subject of C12) loses the pending change -/
+theorem commit_without_write_loses_change :
+    let ops : List (Op 2) := [.acquire 0 c1, .commit, .update]
+    allOk sh3 {} ops = false ∧ (run sh3 {} ops).store.items 0 = some c1 ∧ (run sh3 {} ops).disk 2 0 = none := by
+  decide
+
+/-! ### the whole `HAProxyUpdate` (end-to-end): the dynamic-update gate in front of `writeConfig` -/
+
+/-- whenever an added backend is left after `Shrink`, or no update ran since the last
+`config.Clear`, the gated update IS the update cycle of `disk_eq_items` -/
+theorem updateGated_eq_update (sh : Sh p) (committed : Bool) (w : World p)
+    (h : committed = false ∨ ∃ x, ((shrink sh w.store).add x).isSome = true) :
+    updateGated sh committed w = step sh w .update := by
+  unfold updateGated
+  have : (committed && !(anyFin fun x => ((shrink sh w.store).add x).isSome)) = false := by
+    rcases h with h | h
+    · simp [h]
+    · simp [(anyFin_iff _).2 h]
+  simp only [this]
+  rfl
+
+/-- FULL-STRENGTH STATEMENT THAT DOES NOT HOLD for the whole `HAProxyUpdate`:
+`∀ hist, allOk … → after every gated update, disk k = itemsIn k`.
+Counter-example (finding `stale-backend-on-disk-noop-update`): a batch that only removes backends.
+The dynamic updater ignores removed backends without a counterpart, reports "old and new
+configurations match", `writeConfig` is skipped and the deferred `Commit` drops the shard flag:
+the removed backend stays in its file (until that shard changes again). -/
+theorem noop_update_keeps_removed_backend :
+    let w1 := run sh3 {} [.acquire 0 c1, .acquire 1 c1, .update, .removeAll [0]]
+    let w2 := updateGated sh3 true w1
+    allOk sh3 {} [.acquire 0 c1, .acquire 1 c1, .update, .removeAll [0], .update] = true ∧
+    w2.store.items 0 = none ∧ w2.disk 2 0 = some c1 ∧ w2.store.changed 2 = false ∧
+    (step sh3 w1 .update).disk 2 0 = none := by decide
+
+/-- what IS proved for the gated update: the files are exact after every update that is not a
+remove-only batch on committed data -/
+theorem disk_eq_items_gated_partial (sh : Sh p) (wf : sh.WF) (hist : List (Op p)) (committed : Bool)
+    (hok : allOk sh {} hist = true)
+    (h : committed = false ∨ ∃ x, ((shrink sh (run sh {} hist).store).add x).isSome = true) :
+    ∀ k x, (updateGated sh committed (run sh {} hist)).disk k x =
+      itemsIn sh (updateGated sh committed (run sh {} hist)).store k x := by
+  rw [updateGated_eq_update sh committed _ h]
+  exact (update_good wf (run_inv wf hist (inv_init sh) hok)).1
+
+/-! ### hosts / frontend maps guard -/
+
+theorem hinv_init : HInv ({} : HStore p) := by
+  refine ⟨?_, ?_, ?_, ?_⟩ <;> intro h <;> simp at h
+
+theorem hstep_inv {s : HStore p} (h : HInv s) (op : HOp p) (hok : hokOp s op = true) : HInv (hstep s op) := by
+  cases op with
+  | acquire x c => exact hacquire_inv h x c
+  | removeAll xs =>
+    refine hremoveAll_inv xs h ?_
+    intro x hx
+    simp only [hokOp, List.all_eq_true] at hok
+    simpa using hok x hx
+  | clear => exact hclear_inv s
+  | update => exact (hupdate_good h).2.2
+
+theorem hrun_inv (ops : List (HOp p)) : ∀ {s : HStore p}, HInv s → hallOk s ops = true →
+    HInv (ops.foldl hstep s) := by
+  induction ops with
+  | nil => intro s h _; exact h
+  | cons op ops ih =>
+    intro s h hok
+    simp only [hallOk, Bool.and_eq_true] at hok
+    exact ih (hstep_inv h op hok.1) hok.2
+
+theorem hallOk_append (a b : List (HOp p)) : ∀ (s : HStore p),
+    hallOk s (a ++ b) = (hallOk s a && hallOk (a.foldl hstep s) b) := by
+  induction a with
+  | nil => intro s; simp [hallOk]
+  | cons op a ih => intro s; simp [hallOk, ih, Bool.and_assoc]
+
+/-- **C05, frontend maps guard.**  `WriteFrontendMaps` is skipped when `frontend.Maps != nil` and
+`hosts.Changed()` is false; for every history of AcquireHost / RemoveAll / config.Clear / update
+(RemoveAll only on hosts not re-added in the batch) the host entries of the map files equal the
+current hosts after every update.  (Host content is abstract: map lines that are computed from
+OTHER objects than the host itself are outside this statement, see the registry notes.) -/
+theorem maps_eq_hosts (hist : List (HOp p)) (hok : hallOk {} (hist ++ [.update]) = true) :
+    ∀ x, ((hist ++ [HOp.update]).foldl hstep ({} : HStore p)).maps x =
+         ((hist ++ [HOp.update]).foldl hstep ({} : HStore p)).items x := by
+  rw [hallOk_append] at hok
+  simp only [Bool.and_eq_true] at hok
+  have h := hrun_inv hist hinv_init hok.1
+  rw [List.foldl_append]
+  exact (hupdate_good h).1
+
+/-- non-vacuity: host 0 re-added unchanged (no rewrite needed), then a full resync dropping host 1 -/
+example :
+    let hist : List (HOp 2) := [.acquire 0 5, .acquire 1 6, .update, .removeAll [0], .acquire 0 5, .update,
+      .clear, .acquire 0 7]
+    hallOk {} (hist ++ [.update]) = true ∧
+    ((hist ++ [HOp.update]).foldl hstep ({} : HStore 2)).maps 1 = none ∧
+    ((hist ++ [HOp.update]).foldl hstep ({} : HStore 2)).maps 0 = some 7 := by decide
+
+/-! ### regenerated facts: the Go source still has the shape the model assumes -/
+
+/-- `Backends.Clear` inspects the OLD shards and flags the NEW object; `Shrink` recomputes the
+flags through `BackendChanged`; `HAProxyUpdate` shrinks before writing and defers `Commit`;
+`writeConfig` renders the main file and then `ChangedShards()` only, when `BackendShards > 0`;
+`WriteFrontendMaps` is guarded by `Maps != nil && !hosts.Changed()` -/
+theorem facts_c05 :
+    Facts.c05ClearRange = ["b.shards"] ∧
+    Facts.c05ClearCond = ["len(b.shards[i])>0"] ∧
+    Facts.c05ClearFlagCalls = ["nb.backendShardChanged"] ∧
+    Facts.c05ClearAssigns = ["nb.itemsDel=b.items"] ∧
+    Facts.c05ShrinkCalls = ["b.BackendChanged", "b.BackendChanged"] ∧
+    Facts.c05CommitAssigns = ["b.itemsAdd=?", "b.itemsDel=?", "b.changedShards=?"] ∧
+    Facts.c05UpdateCalls = ["i.config.Commit", "i.config.SyncConfig", "i.config.Shrink",
+      "i.config.WriteTCPServicesMaps", "i.config.WriteFrontendMaps", "i.config.WriteBackendMaps",
+      "i.writeCrtLists", "i.writeConfig"] ∧
+    Facts.c05WriteConfigCalls = ["i.haproxyTmpl.Write", ".ChangedShards", "i.haproxyTmpl.WriteOutput",
+      ".BuildSortedShard"] ∧
+    Facts.c05WriteConfigCmps = ["i.options.BackendShards > 0"] ∧
+    Facts.c05FrontendMapsGuard = ["c.frontend.Maps!=nil&&!c.hosts.Changed()"] := by decide
 
 end HapVerif.C05
